@@ -155,6 +155,18 @@ pub fn execute_free(spec: &RunSpec, pool: Arc<dyn Pool + Send + Sync>, warmup: &
                     let _ = hooks::take_input_modified();
                 }
                 ctx.emitted.borrow_mut().clear();
+                if !warm.is_empty() {
+                    // whatever the history wrote to fd 1 / fd 2 directly (a `log` that bypasses the seam) is
+                    // not part of what is judged: the capture files start empty at the scheduled part
+                    use std::io::Write;
+                    let _ = std::io::stdout().flush();
+                    unsafe {
+                        for fd in [1, 2] {
+                            libc::ftruncate(fd, 0);
+                            libc::lseek(fd, 0, libc::SEEK_SET);
+                        }
+                    }
+                }
                 marker(tid as u64, KIND_START);
                 for (i, op) in ops_list.iter().enumerate() {
                     ctx.cur_op.set(i);
